@@ -190,8 +190,14 @@ func Harness_C06(n int) {
 		symMonitor("expronce")
 	}
 	b := runB(in, "", opts...)
+	blind := memo && !symLeftRec && symMonitorEvents() == 0
 	symMonitor("off")
 	symNote(note(a))
+	if blind {
+		// the monitor matched no evaluation at all (the runtime's entry point has another name): not a pass
+		symNote("monitor blind")
+		return
+	}
 	symAssert(a.panicked == b.panicked, "C06: one run panicked")
 	symAssert(symEqual(a.v, b.v), "C06: value differs under Memoize/Debug/Statistics")
 	symAssert(a.hasErr == b.hasErr, "C06: error presence differs")
